@@ -328,7 +328,7 @@ func main() {
 	hx.Must(os.MkdirAll(*out, 0o755))
 	r := hx.NewRng(*seed)
 	sum := hx.NewSummary("C02")
-	sum.Rule = "every input linted R times on fresh Linter values under GOMAXPROCS cycling through 1,2,4,16: corpus files of testdata/{examples,err,ok}, project directories of testdata/projects (LintRepository), multi-file LintFiles runs, and generated workflows that put >= 3 entries into every map whose iteration order can reach the output; non-trivial = the input yields >= 2 diagnostics at one position or is a multi-file run; distinct = distinct input"
+	sum.Rule = "every input linted R times on fresh Linter values under GOMAXPROCS cycling through 1,2,4,16: corpus files of testdata/{examples,err,ok}, project directories of testdata/projects (LintRepository), multi-file LintFiles runs (one of them over two repositories with different configurations), repeated runs on one Linter value, unknown inputs of actions / workflows with more than 32 inputs (long sorted lists), and generated workflows that put >= 3 entries into every map whose iteration order can reach the output; non-trivial = the input yields >= 2 diagnostics at one position or is a multi-file run; distinct = distinct input"
 	nontrivial := 0
 	check := func(key, input, source string, run func(rep int) result) {
 		first := run(0)
@@ -569,6 +569,115 @@ func main() {
 		src2 := wfRunnerLabels(r)
 		sum.Dist["site_runner_labels"]++
 		check("site:runner-labels:"+src2, "generated runs-on workflow", src2, func(rep int) result { return lintContent("gen.yaml", []byte(src2), rep) })
+	}
+	// (8) long name lists built from map loops (more than 32 entries): unknown input of the
+	// popular actions with the most inputs, of a local action and of a reusable workflow with 45
+	specs := hx.SortedKeys(actionlint.PopularActions)
+	sort.SliceStable(specs, func(i, j int) bool {
+		return len(actionlint.PopularActions[specs[i]].Inputs) > len(actionlint.PopularActions[specs[j]].Inputs)
+	})
+	for k := 0; k < 4 && k < len(specs); k++ {
+		src := "on: push\njobs:\n  a:\n    runs-on: ubuntu-latest\n    steps:\n      - uses: " + specs[k] + "\n        with:\n          no-such-input-zz: x\n"
+		sum.Dist["site_long_lists"]++
+		sum.Dist[fmt.Sprintf("long_list_len:%d", len(actionlint.PopularActions[specs[k]].Inputs))]++
+		check("site:long-list:"+specs[k], "unknown input of "+specs[k], src, func(rep int) result { return lintContent("gen.yaml", []byte(src), rep) })
+	}
+	{
+		lp := filepath.Join(*out, "longproj")
+		hx.Must(os.MkdirAll(filepath.Join(lp, ".git"), 0o755))
+		var ins, wins strings.Builder
+		for i := 0; i < 45; i++ {
+			n := fmt.Sprintf("%s_%02d", namePool[(i*7)%len(namePool)], (i*13)%45)
+			fmt.Fprintf(&ins, "  %s:\n    description: d\n", n)
+			fmt.Fprintf(&wins, "      %s:\n        type: string\n", n)
+		}
+		writeFile(filepath.Join(lp, "act", "action.yml"), "name: a\ndescription: d\ninputs:\n"+ins.String()+"runs:\n  using: node20\n  main: index.js\n")
+		writeFile(filepath.Join(lp, ".github", "workflows", "callee.yaml"), "on:\n  workflow_call:\n    inputs:\n"+wins.String()+"    secrets:\n"+strings.ReplaceAll(wins.String(), "        type: string\n", "        required: false\n")+"jobs:\n  j:\n    runs-on: ubuntu-latest\n    steps:\n      - run: echo\n")
+		caller := filepath.Join(lp, ".github", "workflows", "caller.yaml")
+		writeFile(caller, "on: push\njobs:\n  a:\n    runs-on: ubuntu-latest\n    steps:\n      - uses: ./act\n        with:\n          no-such-input-zz: x\n  b:\n    uses: ./.github/workflows/callee.yaml\n    with:\n      no-such-input-zz: x\n    secrets:\n      no-such-secret-zz: x\n")
+		sum.Dist["site_long_lists"]++
+		check("site:long-list:local", "unknown input/secret of a local action and a reusable workflow with 45 inputs", "", func(rep int) result {
+			runtime.GOMAXPROCS(procs[rep%len(procs)])
+			var ob bytes.Buffer
+			l := newLinter(&ob)
+			errs, err := l.LintFile(caller, nil)
+			res := result{Errs: strings.ReplaceAll(fmtErrs(errs), lp, "<proj>"), Out: strings.ReplaceAll(ob.String(), lp, "<proj>")}
+			if err != nil {
+				res.Fail = "fatal"
+			}
+			return res
+		})
+	}
+	// (9) two repositories with different configurations in ONE LintFiles call (project resolved
+	// per file): goroutine scheduling must not leak one repository's configuration into the other
+	{
+		var files []string
+		for ri, label := range []string{"runner-of-repo-one", "runner-of-repo-two"} {
+			rp := filepath.Join(*out, fmt.Sprintf("tworepos/r%d", ri))
+			hx.Must(os.MkdirAll(filepath.Join(rp, ".git"), 0o755))
+			writeFile(filepath.Join(rp, ".github", "actionlint.yaml"), "self-hosted-runner:\n  labels:\n    - "+label+"\n")
+			for k := 0; k < 6; k++ {
+				f := filepath.Join(rp, ".github", "workflows", fmt.Sprintf("w%d.yaml", k))
+				writeFile(f, "on: push\njobs:\n  a:\n    runs-on: runner-of-repo-one\n    steps:\n      - run: echo\n  b:\n    runs-on: runner-of-repo-two\n    steps:\n      - run: echo ${{ unknown_zz }}\n")
+				files = append(files, f)
+			}
+		}
+		// interleave the two repositories
+		sort.SliceStable(files, func(i, j int) bool { return filepath.Base(files[i]) < filepath.Base(files[j]) })
+		nontrivial++
+		sum.Dist["two_repository_runs"]++
+		base := filepath.Join(*out, "tworepos")
+		check("multi:two-repositories", "12 files of two repositories with different actionlint.yaml in one LintFiles call", "", func(rep int) result {
+			res := lintFiles(files, rep)
+			res.Errs = strings.ReplaceAll(res.Errs, base, "<base>")
+			res.Out = strings.ReplaceAll(res.Out, base, "<base>")
+			return res
+		})
+	}
+	// (10) "how many times the run is repeated": the SAME Linter value lints the same file again;
+	// every run must report what the first one reported (a broken local action and a broken
+	// reusable workflow are reported once per RUN, not once per Linter)
+	{
+		bp := filepath.Join(*out, "reuseproj")
+		hx.Must(os.MkdirAll(filepath.Join(bp, ".git"), 0o755))
+		writeFile(filepath.Join(bp, "broken", "action.yml"), "name: b\ninputs: 42\nruns:\n  using: node20\n  main: index.js\n")
+		writeFile(filepath.Join(bp, "fine", "action.yml"), "name: f\ndescription: d\ninputs:\n  must:\n    required: true\nruns:\n  using: node20\n  main: index.js\n")
+		writeFile(filepath.Join(bp, ".github", "workflows", "brokencallee.yaml"), "on:\n  workflow_call:\n    inputs: 42\njobs: {}\n")
+		wf := filepath.Join(bp, ".github", "workflows", "w.yaml")
+		writeFile(wf, "on: push\njobs:\n  a:\n    runs-on: ubuntu-latest\n    steps:\n      - uses: ./broken\n      - uses: ./fine\n      - uses: ./missing\n      - run: echo ${{ unknown_zz }}\n  b:\n    uses: ./.github/workflows/brokencallee.yaml\n  c:\n    uses: ./.github/workflows/nosuch.yaml\n")
+		src, err := os.ReadFile(wf)
+		hx.Must(err)
+		sum.Dist["linter_reuse_runs"]++
+		for mode := 0; mode < 3; mode++ {
+			var ob bytes.Buffer
+			l := newLinter(&ob)
+			var first string
+			for i := 0; i < 4; i++ {
+				ob.Reset()
+				var errs []*actionlint.Error
+				var err error
+				switch mode {
+				case 0:
+					errs, err = l.LintFile(wf, nil)
+				case 1:
+					errs, err = l.Lint(wf, src, nil)
+				default:
+					errs, err = l.LintFiles([]string{wf}, nil)
+				}
+				cur := strings.ReplaceAll(fmtErrs(errs)+"\x00"+ob.String(), bp, "<proj>")
+				if err != nil {
+					cur += "\x00fatal"
+				}
+				sum.Evaluations++
+				if i == 0 {
+					first = cur
+				} else if cur != first {
+					sum.OracleFails = append(sum.OracleFails, failure{What: fmt.Sprintf("run %d on the same Linter value (mode %d: LintFile/Lint/LintFiles) reports something else than the first run", i+1, mode),
+						Key: fmt.Sprintf("linter-reuse:mode%d", mode), Input: "scratch project with a broken local action / reusable workflow", First: first, Other: cur, Source: string(src)})
+					break
+				}
+			}
+		}
 	}
 	runtime.GOMAXPROCS(runtime.NumCPU())
 	sum.Nontrivial = nontrivial
